@@ -262,6 +262,115 @@ def nat_pred_spelling():
             "note": "labelled enumeration (no data dimension): predicate spelling x request spelling match matrix"}
 '''
 
+GEN_CODE = '''
+import random, collections
+ATOMS = [int, str, bool, type(None), bytes, float, Any]
+LITS = [0, 1, False, True, "a", "", b"x", None]
+# a term is a tree: ("atom", t) | ("lit", (values)) | ("union", [terms]) | (ctor, [terms])
+CTORS = {"list": 1, "set": 1, "fset": 1, "tuplev": 1, "tuple2": 2, "dict": 2, "seq": 1, "map": 2, "deque": 1, "iter": 1}
+def gen(d=0):
+    r = random.random()
+    if d >= 3 or r < 0.3: return ("atom", random.choice(ATOMS))
+    if r < 0.4: return ("lit", tuple(random.sample(LITS, random.randint(1, 3))))
+    if r < 0.6: return ("union", [gen(d + 1) for _ in range(random.randint(2, 3))])
+    c = random.choice(list(CTORS))
+    return (c, [gen(d + 1) for _ in range(CTORS[c])])
+def hashable_ok(t):  # set elements / dict keys need no constraint at the type level
+    return True
+def render(t, style):
+    """style: random source for spelling choices -> a typing object denoting the same type"""
+    k = t[0]
+    if k == "atom":
+        a = t[1]
+        if a is type(None) and style.random() < 0.5: return None
+        return a
+    if k == "lit":
+        vals = list(t[1])
+        style.shuffle(vals)
+        if len(vals) > 1 and style.random() < 0.4:
+            cut = style.randint(1, len(vals) - 1)
+            return Union[Literal[tuple(vals[:cut])], Literal[tuple(vals[cut:])]]
+        if style.random() < 0.2: vals = vals + [vals[0]]
+        return Literal[tuple(vals)]
+    if k == "union":
+        parts = [render(x, style) for x in t[1]]
+        style.shuffle(parts)
+        if style.random() < 0.3: parts = parts + [parts[0]]
+        if len(parts) > 2 and style.random() < 0.4:
+            parts = [Union[tuple(parts[:2])]] + parts[2:]
+        if style.random() < 0.3:
+            try:
+                out = parts[0]
+                for p in parts[1:]: out = out | p
+                return out
+            except TypeError: pass
+        return Union[tuple(parts)]
+    args = [render(x, style) for x in t[1]]
+    b = style.random() < 0.5
+    if k == "list": return (list if b else List)[args[0]]
+    if k == "set": return (set if b else Set)[args[0]]
+    if k == "fset": return (frozenset if b else FrozenSet)[args[0]]
+    if k == "tuplev": return (tuple if b else Tuple)[args[0], ...]
+    if k == "tuple2": return (tuple if b else Tuple)[args[0], args[1]]
+    if k == "dict": return (dict if b else Dict)[args[0], args[1]]
+    if k == "seq": return (collections.abc.Sequence if b else typing.Sequence)[args[0]]
+    if k == "map": return (collections.abc.Mapping if b else typing.Mapping)[args[0], args[1]]
+    if k == "deque": return (collections.deque if b else typing.Deque)[args[0]]
+    if k == "iter": return (collections.abc.Iterable if b else typing.Iterable)[args[0]]
+    raise KeyError(k)
+def canon(t):
+    """semantic canonical form of a term (for deciding whether two TERMS denote different types)"""
+    k = t[0]
+    if k == "atom": return ("atom", t[1])
+    if k == "lit":
+        vals = {(type(v), v) for v in t[1]}
+        parts = set()
+        if (type(None), None) in vals: parts.add(("atom", type(None))); vals.discard((type(None), None))
+        if vals: parts.add(("lit", frozenset(vals)))
+        return ("union", frozenset(parts)) if len(parts) > 1 else next(iter(parts))
+    if k == "union":
+        parts, lits = set(), set()
+        def add(c):
+            if c[0] == "union":
+                for x in c[1]: add(x)
+            elif c[0] == "lit": lits.update(c[1])
+            else: parts.add(c)
+        for x in t[1]: add(canon(x))
+        if lits: parts.add(("lit", frozenset(lits)))
+        if ("atom", Any) in parts: pass
+        return ("union", frozenset(parts)) if len(parts) > 1 else next(iter(parts))
+    return (k, tuple(canon(x) for x in t[1]))
+
+def _gen_terms(n, seed):
+    random.seed(seed)
+    return [gen() for _ in range(n)]
+def chk_congruence_generated(i, n, seed):
+    terms = _gen_terms(n, seed)
+    t = terms[i]
+    try:
+        a, b = render(t, random.Random(i)), render(t, random.Random(i + 10 ** 6))
+    except TypeError:
+        return True                      # the spelling is not expressible (e.g. None | None)
+    na, nb = normalize_type(a), normalize_type(b)
+    if na != nb or hash(na) != hash(nb): return False
+    if normalize_type(na.source) != na: return False
+    u = terms[(i * 7 + 1) % n]
+    if canon(u) != canon(t):
+        try: ru = render(u, random.Random(i))
+        except TypeError: return True
+        if normalize_type(ru) == na: return False
+    return True
+def nat_congruence_generated():
+    n, seed = GEN_N, GEN_SEED
+    bad = []
+    for i in range(n):
+        try: ok = chk_congruence_generated(i, n, seed)
+        except Exception: ok = False
+        if not ok: bad.append({"i": str(i), "n": str(n), "seed": str(seed)})
+    return {"status": "REFUTED" if bad else "CONFIRMED", "cexs": bad[:5], "evaluations": n * 3,
+            "note": "labelled native enumeration of a seeded GENERATED family: random type terms (depth <= 3) in two random spellings each"}
+'''
+
 
 def build(tier, seed):
     quick = tier == "quick"
@@ -298,6 +407,12 @@ def chk_lit_full_pool(sa, sb, sc, sd):
     mf.nat("pred_spelling", PRED_CODE, timeout=300, family="equivalent spellings are equivalent predicates (labelled enumeration)",
            bounds="every spelling of the 51 groups as the predicate of loader()/dumper() against every spelling as the requested type: the match matrix "
                   "depends on neither spelling (checker level), and the marker provider is selected through Retort.get_loader/get_dumper (facade level)")
+    gen_n = 1500 if quick else 6000
+    mf.pre(f"GEN_N, GEN_SEED = {gen_n}, {int(seed) % 100000 + 21}")
+    mf.nat("congruence_generated", GEN_CODE, timeout=300, family="rewrite congruence over a GENERATED family of type terms (labelled enumeration, seeded)",
+           bounds=f"{gen_n} random terms of depth <= 3 over 7 atoms, Literal members from an 8-value pool, unions and 10 generic constructors; two random spellings each "
+                  "(member order, nesting, duplicates, |, Literal split / merge, typing alias vs builtin / collections.abc generic, None vs NoneType): equal, hash-equal, "
+                  "idempotent; a term of another meaning never collapses with it")
     mb = Module("c15_behaviour").pre(SETUP).pre(FAMILY_SETUP).pre(BEHAV_SETUP)
     mb.ob("builds", "x: int", "return not BUILD_ERRORS", timeout=20, family="behavioural equivalence", bounds="loader creation for every spelling")
     groups = ["opt_int", "int_str", "int_str_none", "list_int", "list_str", "dict_str_int", "tuple_var_int", "tuple_int_str", "seq_int",
